@@ -72,15 +72,18 @@ impl PathSelector {
     /// 2. it doesn't match any of the exclude filters ending with `**` pattern.
     pub fn matches_dir(&self, path: &Path) -> bool {
         self.with_absolute_path(path, |path| {
-            let mut path = path.to_string_lossy();
+            let full_path = path.to_string_lossy();
+            let mut path = full_path.clone();
             if !path.ends_with(MAIN_SEPARATOR) {
                 path.push(MAIN_SEPARATOR);
             }
+            // This is also called for input paths and link targets that are files,
+            // so a path that matches an include filter exactly must pass as well.
             (self.included_paths.is_empty()
                 || self
                     .included_paths
                     .iter()
-                    .any(|p| p.matches_partially(&path)))
+                    .any(|p| p.matches_partially(&path) || p.matches(&full_path)))
                 && self.excluded_paths.iter().all(|p| !p.matches_prefix(&path))
         })
     }
